@@ -1247,7 +1247,7 @@ def opc10_handler_queue_order(ctx: Ctx) -> None:
     fn = mod.fn("currently_exiting_context")
     loops = [l for l in ast.walk(fn) if isinstance(l, ast.While) and norm(l.test) == "todo"]
     if len(loops) != 1:
-        ctx.R.undecided("OPC-10", "the `while todo` walk was not found")
+        _undecided_or_deferred(ctx, "OPC-10", "the `while todo` walk was not found")
         return
     loop = loops[0]
     g = ctx.cfg(fn)
@@ -1267,7 +1267,7 @@ def opc10_handler_queue_order(ctx: Ctx) -> None:
             pushes.append(st)
     queues = [st for st in ast.walk(loop) if isinstance(st, ast.Expr) and isinstance(st.value, ast.Call) and norm(st.value.func) == "todo.append" and guarded_by(st, "hasjrel")]
     if not pushes or not queues:
-        ctx.R.undecided("OPC-10", f"block push ({len(pushes)}) / relative-jump queuing ({len(queues)}) not found in the walk")
+        _undecided_or_deferred(ctx, "OPC-10", f"block push ({len(pushes)}) / relative-jump queuing ({len(queues)}) not found in the walk")
         return
     header = g.node_of(loop)
     bad = None
@@ -1355,6 +1355,17 @@ def opc3c_prologue_eval(ctx: Ctx) -> None:
     ctx.R.ok("OPC-3c", f"{n_ok} (interpreter, layout, EXTENDED_ARG count, leading context) cases: the `as` target is decoded from the first instruction after the prologue", "engine MINI over FACTS prologues")
 
 
+def _undecided_or_deferred(ctx: Ctx, rule: str, msg: str) -> None:
+    """a table rule about the 3.9 / 3.10 exit path that cannot read the code's shape: if the whole function still evaluates on
+    every observed exit site of those interpreters and resolves each one (OPC-16), the shape rule is recorded as not applied
+    rather than undecided -- the stronger check has spoken.  Otherwise undecided, as before"""
+    n = _walk_covered_by_sites(ctx)
+    if n is not None:
+        ctx.R.ok(rule, f"not applied to this shape ({msg[:90]})", f"deferred to OPC-16: currently_exiting_context evaluated on {n} observed 3.9 / 3.10 exit sites, all resolve")
+    else:
+        ctx.R.undecided(rule, msg)
+
+
 def opc12_block_walk_table(ctx: Ctx) -> None:
     """OPC-12 the control-flow walk that finds the handler of a POP_BLOCK (CPython 3.9 / 3.10; never entered by the 3.12 suite) as a
     table.  One iteration of `while todo:` is evaluated under every assignment of the conditions it tests (already visited /
@@ -1371,7 +1382,7 @@ def opc12_block_walk_table(ctx: Ctx) -> None:
     fn = mod.fn("currently_exiting_context")
     loops = [l for l in walk_scope(fn) if isinstance(l, ast.While) and norm(l.test) in ("todo", "len(todo) > 0", "len(todo)", "todo != []")]
     if len(loops) != 1:
-        ctx.R.undecided("OPC-12", f"{len(loops)} `while todo` loops found (1 expected)")
+        _undecided_or_deferred(ctx, "OPC-12", f"{len(loops)} `while todo` loops found (1 expected)")
         return
     loop = loops[0]
     # canonical names for the walk's variables (a helper inlined by the normaliser, or a rename, keeps the roles)
@@ -1392,7 +1403,7 @@ def opc12_block_walk_table(ctx: Ctx) -> None:
                 and sorted(norm(x) for x in (a.value.body, a.value.orelse)) == ["1", "2"]:
             ren[a.targets[0].id] = "jmul"
     if set(ren.values()) != {"offs", "stack", "arg", "jmul"}:
-        ctx.R.undecided("OPC-12", f"the walk's variables were not all recognised (found {sorted(ren.values())})")
+        _undecided_or_deferred(ctx, "OPC-12", f"the walk's variables were not all recognised (found {sorted(ren.values())})")
         return
     if any(k_ != v_ for k_, v_ in ren.items()):
         class _RN(ast.NodeTransformer):
@@ -1495,7 +1506,7 @@ def opc12_block_walk_table(ctx: Ctx) -> None:
     try:
         atoms, rows = enumerate_table(run, [], max_atoms=9)
     except EUnsupported as ex:
-        ctx.R.undecided("OPC-12", f"the walk's loop body is outside the step interpreter: {ex}")
+        _undecided_or_deferred(ctx, "OPC-12", f"the walk's loop body is outside the step interpreter: {ex}")
         return
     inplace = [c for c in ast.walk(loop) if (isinstance(c, ast.Call) and isinstance(c.func, ast.Attribute) and norm(c.func.value) == "stack" and c.func.attr in ("append", "pop", "insert", "extend", "clear", "remove"))
                or (isinstance(c, ast.AugAssign) and norm(c.target) == "stack") or (isinstance(c, ast.Delete) and any(norm(getattr(t_, "value", t_)) == "stack" for t_ in c.targets))]
@@ -1506,10 +1517,10 @@ def opc12_block_walk_table(ctx: Ctx) -> None:
         return
     roles = {a: role(a) for a in atoms}
     if None in roles.values() or len(set(roles.values())) != len(roles):
-        ctx.R.undecided("OPC-12", f"conditions of the walk not recognised: {[a for a, r in roles.items() if r is None] or list(roles)}")
+        _undecided_or_deferred(ctx, "OPC-12", f"conditions of the walk not recognised: {[a for a, r in roles.items() if r is None] or list(roles)}")
         return
     if not {"SEEN", "JABS", "JREL", "SETUP", "POPB", "TARGET", "UNCOND"} <= set(roles.values()):
-        ctx.R.undecided("OPC-12", f"the walk tests only {sorted(roles.values())}")
+        _undecided_or_deferred(ctx, "OPC-12", f"the walk tests only {sorted(roles.values())}")
         return
     o, a_, j = VAL["offs"], VAL["arg"], VAL["jmul"]
     bad = None
@@ -1538,7 +1549,7 @@ def opc12_block_walk_table(ctx: Ctx) -> None:
                 w.append(("queue", o + 2, d))
             want_e = tuple(w)
         if any(x[0] == "?" for x in effects):
-            ctx.R.undecided("OPC-12", f"an effect of the walk is not understood: {[x for x in effects if x[0] == '?'][0][1]}")
+            _undecided_or_deferred(ctx, "OPC-12", f"an effect of the walk is not understood: {[x for x in effects if x[0] == '?'][0][1]}")
             return
         if (effects, res) != (want_e, want_r) and bad is None:
             bad = (r, effects, res, want_e, want_r)
@@ -1574,9 +1585,9 @@ def opc12_block_walk_table(ctx: Ctx) -> None:
                 ctx.R.fail("OPC-12", mod, pre[0], f"on [EXTENDED_ARG 1, EXTENDED_ARG 2, <op> 3] the walk computes (arg, offs) = {got}; the instruction's argument is {(1 << 16) | (2 << 8) | 3} and it sits at offset 4: "
                            "jump targets of instructions with extended arguments are wrong", construct="EXTENDED_ARG accumulation in the block walk")
         except (MUnsupported, Raised) as ex:
-            ctx.R.undecided("OPC-12", f"EXTENDED_ARG accumulation not evaluable: {ex}")
+            _undecided_or_deferred(ctx, "OPC-12", f"EXTENDED_ARG accumulation not evaluable: {ex}")
     else:
-        ctx.R.undecided("OPC-12", "the argument / EXTENDED_ARG accumulation statements of the walk were not found")
+        _undecided_or_deferred(ctx, "OPC-12", "the argument / EXTENDED_ARG accumulation statements of the walk were not found")
 
 
 def opc14_async_position_310(ctx: Ctx) -> None:
@@ -1591,7 +1602,7 @@ def opc14_async_position_310(ctx: Ctx) -> None:
     reach = ctx.reach(mod)
     cands = [n for n in fn.body if isinstance(n, ast.If) and "sys.version_info" in norm(n.test) and any("YIELD_FROM" in norm(x) for x in ast.walk(n))]
     if len(cands) != 1:
-        ctx.R.undecided("OPC-14", f"{len(cands)} version branches mention YIELD_FROM at the top level of currently_exiting_context (1 expected)")
+        _undecided_or_deferred(ctx, "OPC-14", f"{len(cands)} version branches mention YIELD_FROM at the top level of currently_exiting_context (1 expected)")
         return
     node = cands[0]
     arm = None
@@ -1599,7 +1610,7 @@ def opc14_async_position_310(ctx: Ctx) -> None:
         if body and {"3.9", "3.10"} <= set(reach.live.get(id(body[0]), frozenset())) and "3.11" not in reach.live.get(id(body[0]), frozenset()):
             arm = body
     if arm is None:
-        ctx.R.undecided("OPC-14", "no arm of the YIELD_FROM branch is reachable exactly under 3.9 / 3.10")
+        _undecided_or_deferred(ctx, "OPC-14", "no arm of the YIELD_FROM branch is reachable exactly under 3.9 / 3.10")
         return
 
     def role(atom: str) -> Optional[str]:
@@ -1621,11 +1632,11 @@ def opc14_async_position_310(ctx: Ctx) -> None:
     try:
         atoms, rows = enumerate_table(run, [], max_atoms=6)
     except EUnsupported as ex:
-        ctx.R.undecided("OPC-14", f"outside the step interpreter: {ex}")
+        _undecided_or_deferred(ctx, "OPC-14", f"outside the step interpreter: {ex}")
         return
     roles = {a: role(a) for a in atoms}
     if None in roles.values() or "A" not in roles.values() or len(set(roles.values())) != len(roles):
-        ctx.R.undecided("OPC-14", f"conditions not recognised: {atoms}")
+        _undecided_or_deferred(ctx, "OPC-14", f"conditions not recognised: {atoms}")
         return
     import itertools as _it
     missing = sorted({"A", "B", "C"} - set(roles.values()))
@@ -1640,7 +1651,7 @@ def opc14_async_position_310(ctx: Ctx) -> None:
         got_back = [e_.replace(" ", "") for e_ in backs] == ["offs-=2"] if backs else False
         odd = [e_ for e_ in backs if e_.replace(" ", "") != "offs-=2"] or [e_ for e_ in effects if not e_.replace(" ", "").startswith(("offs", "is_async"))]
         if odd or k != "fall":
-            ctx.R.undecided("OPC-14", f"effect `{(odd or [k])[0]}` not understood")
+            _undecided_or_deferred(ctx, "OPC-14", f"effect `{(odd or [k])[0]}` not understood")
             return
         if (got_async, got_back) != (want_async, want_back):
             ctx.R.fail("OPC-14", mod, node, f"CPython 3.9 / 3.10, position {'on' if r['A'] else 'not on'} a YIELD_FROM, next instruction {'is' if r['C'] else 'is not'} a YIELD_FROM"
@@ -1715,20 +1726,17 @@ def opc15_exit_sites(ctx: Ctx) -> None:
         raise AnalysisError(f"OPC-15: only {n_ok} exit sites resolved correctly; the evaluation is probably not reaching the matcher")
 
 
-def opc16_exit_sites_310(ctx: Ctx) -> None:
-    """OPC-16 the same question as OPC-15 for CPython 3.9 / 3.10, where the answer comes from the POP_BLOCK walk -- code the 3.12
-    suite never runs.  FACTS (exit_sites_observed): each of the 30 shapes is *run* by that interpreter with recording context
-    managers; for every normal-path exit the facts hold the position of the leaving frame as seen from inside __exit__ /
-    __aexit__ (and, for async exits, the position at which the coroutine is suspended) and the handler of the block that manager
-    entered (the target of its SETUP_WITH / SETUP_ASYNC_WITH) -- the interpreter's own word on which block an exit belongs to.
-    currently_exiting_context is evaluated (engine MINI, whole function, including the block-stack walk) at each recorded
-    position and must return that handler and is_async"""
+def _sites_310(ctx: Ctx):
+    """evaluate currently_exiting_context at every observed 3.9 / 3.10 exit site (cached per run) ->
+    {"results": [(version, shape, site, got, warned)], "unsupported": str | None}"""
+    cache = getattr(ctx, "_sites310", None)
+    if cache is not None:
+        return cache
     from types import SimpleNamespace as NS
     from ..minieval import Mini, Raised, Unsupported, _Return
     mod = ctx.P.mod("_lowlevel")
     fn = mod.fn("currently_exiting_context")
-    n_ok = 0
-    n_all = 0
+    out = {"results": [], "unsupported": None}
     for v in sorted(ctx.V.all, key=lambda s_: tuple(map(int, s_.split(".")))):
         IF = ctx.F["interp"][v]
         shapes = IF.get("exit_sites_observed")
@@ -1737,7 +1745,6 @@ def opc16_exit_sites_310(ctx: Ctx) -> None:
         omap = IF["opmap"]
         for name, sh in sorted(shapes.items()):
             for site in sh["sites"]:
-                n_all += 1
                 warned: List[str] = []
                 code_obj = NS(co_code=list(sh["co_code"]), co_consts=[None if x else 0 for x in sh["consts_none"]], co_name=name)
                 env = {"frame": NS(f_lasti=site["pos"], f_code=code_obj), "dis": NS(opmap=dict(omap), hasjabs=[omap[x] if isinstance(x, str) else x for x in IF["hasjabs"]], hasjrel=[omap[x] if isinstance(x, str) else x for x in IF["hasjrel"]]),
@@ -1756,18 +1763,52 @@ def opc16_exit_sites_310(ctx: Ctx) -> None:
                 except Raised as ex:
                     res = f"raises {ex.kind}"
                 except Unsupported as ex:
-                    ctx.R.undecided("OPC-16", f"{v} {name}: currently_exiting_context is outside the evaluator's fragment: {ex}")
-                    return
+                    out["unsupported"] = f"{v} {name}: currently_exiting_context is outside the evaluator's fragment: {ex}"
+                    ctx._sites310 = out
+                    return out
                 got = (getattr(res, "cleanup_offset", None), getattr(res, "is_async", None)) if isinstance(res, NS) else res
-                want = (site["handler"], site["is_async"])
-                if got == want:
-                    n_ok += 1
-                    ctx.R.ok("OPC-16", f"{v} {name} ({site['kind']} at {site['pos']}): handler {site['handler']}", "FACTS exit_sites_observed")
-                else:
-                    what = f"returns handler offset {got[0]} (is_async={got[1]})" if isinstance(got, tuple) else ("returns None" + (" after a warning" if warned else "") if res is None else str(res))
-                    ctx.R.fail("OPC-16", mod, fn, f"CPython {v}, with-body shape `{name}`, frame leaving the block normally ({site['kind']}, position {site['pos']} as the interpreter reported it): "
-                               f"currently_exiting_context {what}; the block that manager entered has its handler at {site['handler']} (is_async={site['is_async']}): the exiting manager is attributed to the wrong "
-                               "block or lost on this interpreter", construct=f"{v}: observed exit of shape {name} ({site['kind']} at {site['pos']})")
+                out["results"].append((v, name, site, got, bool(warned), res))
+    ctx._sites310 = out
+    return out
+
+
+def _walk_covered_by_sites(ctx: Ctx) -> Optional[int]:
+    """number of observed 3.9 / 3.10 exit sites, if the whole function evaluates and every one of them resolves to its handler"""
+    ev = _sites_310(ctx)
+    if ev["unsupported"] or not ev["results"]:
+        return None
+    if all(got == (site["handler"], site["is_async"]) for _, _, site, got, _, _ in ev["results"]):
+        return len(ev["results"])
+    return None
+
+
+def opc16_exit_sites_310(ctx: Ctx) -> None:
+    """OPC-16 the same question as OPC-15 for CPython 3.9 / 3.10, where the answer comes from the POP_BLOCK walk -- code the 3.12
+    suite never runs.  FACTS (exit_sites_observed): each of the 30 shapes is *run* by that interpreter with recording context
+    managers; for every normal-path exit the facts hold the position of the leaving frame as seen from inside __exit__ /
+    __aexit__ (and, for async exits, the position at which the coroutine is suspended) and the handler of the block that manager
+    entered (the target of its SETUP_WITH / SETUP_ASYNC_WITH) -- the interpreter's own word on which block an exit belongs to.
+    currently_exiting_context is evaluated (engine MINI, whole function, including the block-stack walk) at each recorded
+    position and must return that handler and is_async"""
+    from types import SimpleNamespace as NS
+    mod = ctx.P.mod("_lowlevel")
+    fn = mod.fn("currently_exiting_context")
+    ev = _sites_310(ctx)
+    if ev["unsupported"]:
+        ctx.R.undecided("OPC-16", ev["unsupported"])
+        return
+    n_ok = 0
+    for v, name, site, got, warned, res in ev["results"]:
+        want = (site["handler"], site["is_async"])
+        if got == want:
+            n_ok += 1
+            ctx.R.ok("OPC-16", f"{v} {name} ({site['kind']} at {site['pos']}): handler {site['handler']}", "FACTS exit_sites_observed")
+        else:
+            what = f"returns handler offset {got[0]} (is_async={got[1]})" if isinstance(got, tuple) else ("returns None" + (" after a warning" if warned else "") if res is None else str(res))
+            ctx.R.fail("OPC-16", mod, fn, f"CPython {v}, with-body shape `{name}`, frame leaving the block normally ({site['kind']}, position {site['pos']} as the interpreter reported it): "
+                       f"currently_exiting_context {what}; the block that manager entered has its handler at {site['handler']} (is_async={site['is_async']}): the exiting manager is attributed to the wrong "
+                       "block or lost on this interpreter", construct=f"{v}: observed exit of shape {name} ({site['kind']} at {site['pos']})")
+    n_all = len(ev["results"])
     if n_all and n_ok < n_all // 2:
         raise AnalysisError(f"OPC-16: only {n_ok} of {n_all} observed exit sites resolve; the evaluation is probably not reaching the matcher")
     if not n_all:
@@ -2285,17 +2326,17 @@ def opc8_jump_arithmetic(ctx: Ctx) -> None:
     fn = mod.fn("currently_exiting_context")
     loops = [l for l in ast.walk(fn) if isinstance(l, ast.While) and norm(l.test) == "todo"]
     if len(loops) != 1:
-        ctx.R.undecided("OPC-8", "the `while todo` walk was not found")
+        _undecided_or_deferred(ctx, "OPC-8", "the `while todo` walk was not found")
         return
     loop = loops[0]
     # position variable of the decoded instruction: the one advanced by the EXTENDED_ARG loop
     ext = [w for w in ast.walk(loop) if isinstance(w, ast.While) and "EXTENDED_ARG" in norm(w.test)]
     if len(ext) != 1:
-        ctx.R.undecided("OPC-8", "EXTENDED_ARG prefix loop not found in the walk")
+        _undecided_or_deferred(ctx, "OPC-8", "EXTENDED_ARG prefix loop not found in the walk")
         return
     adv = [s for s in ext[0].body if isinstance(s, ast.AugAssign) and isinstance(s.op, ast.Add) and isinstance(s.value, ast.Constant) and s.value.value == 2]
     if len(adv) != 1:
-        ctx.R.undecided("OPC-8", "the prefix loop does not advance a position by 2")
+        _undecided_or_deferred(ctx, "OPC-8", "the prefix loop does not advance a position by 2")
         return
     P = norm(adv[0].target)
     # arg accumulates (arg << 8) | code[P + 1]
@@ -2316,7 +2357,7 @@ def opc8_jump_arithmetic(ctx: Ctx) -> None:
             else:
                 ctx.R.fail("OPC-8", mod, jm[0], f"CPython {v}: jump arguments are in units of {want} byte(s) (instructions from 3.10 on), the walk scales them by {val}", construct=f"{v}: jmul == {val}")
     else:
-        ctx.R.undecided("OPC-8", "jump unit factor `jmul` not found")
+        _undecided_or_deferred(ctx, "OPC-8", "jump unit factor `jmul` not found")
     # every target expression appended to the work list / pushed on the simulated block stack
     n = 0
     for e in ast.walk(loop):
@@ -2344,4 +2385,4 @@ def opc8_jump_arithmetic(ctx: Ctx) -> None:
         n += 1
         ctx.R.ok("OPC-8", f"absolute target {A} * jmul")
     if n < 3:
-        ctx.R.undecided("OPC-8", f"only {n} jump-target expressions recognised in the walk")
+        _undecided_or_deferred(ctx, "OPC-8", f"only {n} jump-target expressions recognised in the walk")
